@@ -18,9 +18,11 @@ ObsMatch(e, s, d) ==
     \A u \in DOMAIN e.obs :
         /\ u \in Threads
         /\ \A m \in Mgrs :
-             /\ \A f \in DOMAIN e.obs[u][m].state : e.obs[u][m].state[f] = Get(s, u, m)
-             /\ \A f \in DOMAIN e.obs[u][m].top : e.obs[u][m].top[f] = TopDisp(s, u, m)
-             /\ \A f \in DOMAIN e.obs[u][m].attr : e.obs[u][m].attr[f] = AttrDisp(s, d, u, m)
+             /\ \A f \in DOMAIN e.obs[u][m].state : e.obs[u][m].state[f] = NameOf(Get(s, u, m))
+             /\ \A f \in DOMAIN e.obs[u][m].top : e.obs[u][m].top[f] = NameOf(TopDisp(s, u, m))
+             /\ \A f \in DOMAIN e.obs[u][m].attr : e.obs[u][m].attr[f] = NameOf(AttrDisp(s, d, u, m))
+             \* the OBJECT current_backend() returns is the one that was selected (by name: the registered instance)
+             /\ ("inst" \in DOMAIN e.obs[u][m]) => \A f \in DOMAIN e.obs[u][m].inst : e.obs[u][m].inst[f] = Get(s, u, m)
 
 Known(e) == e.name \in Names[e.m]
 
